@@ -1046,6 +1046,9 @@ func ruleFoldLimit(w *World, r *RuleResult) {
 		for _, b := range x.f.Blocks {
 			for _, in := range b.Instrs {
 				if fa, ok := in.(*ssa.FieldAddr); ok {
+					if embeddedStruct(derefStruct(fa.X.Type()).Field(fa.Field)) {
+						continue // a step towards a promoted field, not a field read
+					}
 					fields[derefStruct(fa.X.Type()).Field(fa.Field).Name()] = true
 				}
 			}
